@@ -49,6 +49,8 @@ type vfPacketSpec struct {
 type vfC06Case struct {
 	Routes []vfRouteSpec `json:"routes"`
 	Packet vfPacketSpec  `json:"packet"`
+	// Before: packets routed through the same router before Packet (routing must not depend on earlier traffic)
+	Before []vfPacketSpec `json:"before,omitempty"`
 }
 
 type vfRecSender struct {
@@ -338,6 +340,14 @@ func vfC06Run(run *vfkit.Run, cs vfC06Case) {
 	}
 	snd := &vfRecSender{}
 	want, decided := vfRefRoute(cs)
+	for _, b := range cs.Before {
+		if bp, err := vfParseOne(b.XML); err == nil {
+			router.route(&vfRecSender{}, bp)
+		}
+	}
+	mu.Lock()
+	calls, callPkts = nil, nil
+	mu.Unlock()
 	router.route(snd, pkt)
 	if !decided {
 		run.Count("undecided_by_documentation", 1)
@@ -448,8 +458,18 @@ func TestVf_C06(t *testing.T) {
 	}
 	r := vfkit.Rand(6)
 	n := vfkit.Pick(20000, 2000000)
+	var table []vfRouteSpec
+	var history []vfPacketSpec
 	for c := 0; c < n; c++ {
-		cs := vfC06Case{Routes: vfGenRoutes(r), Packet: vfGenPacket(r, c)}
+		// one table sees a sequence of up to 8 packets; every packet is judged with the earlier ones as its history
+		if c%8 == 0 || r.Intn(16) == 0 {
+			table, history = vfGenRoutes(r), nil
+		}
+		cs := vfC06Case{Routes: table, Packet: vfGenPacket(r, c), Before: append([]vfPacketSpec(nil), history...)}
+		history = append(history, cs.Packet)
+		if len(cs.Before) > 0 {
+			run.Count("packets_routed_after_other_traffic", 1)
+		}
 		if c%2000 == 0 {
 			run.Case(cs)
 		} else {
